@@ -318,7 +318,14 @@ def run_singular_stack(case, R):
         idx2 = tuple(int(rng.integers(n)) for n in (*lead, F))
         Pn[idx2][0, :] = 0; Pn[idx2][:, 0] = 0
     ref = int(rng.integers(0, D))
-    info = dict(D=D, F=F, lead=list(lead))
+    lay = ['c', 'moved', 'c', 'fortran'][case['rs'][-1] % 4]
+    if lay == 'moved':
+        # the stack as np.moveaxis leaves it (statistics estimated as (F, K, D, D) and viewed as (K, F, D, D)): same values, strided memory
+        Px = np.moveaxis(np.ascontiguousarray(np.moveaxis(Px, 0, len(lead))), len(lead), 0)
+        Pn = np.moveaxis(np.ascontiguousarray(np.moveaxis(Pn, 0, len(lead))), len(lead), 0)
+    elif lay == 'fortran':
+        Px, Pn = np.asfortranarray(Px), np.asfortranarray(Pn)
+    info = dict(D=D, F=F, lead=list(lead), layout=lay)
     for which, f in (('souden', lambda px, pn: bf.get_mvdr_vector_souden(px, pn, ref_channel=ref)),
                      ('wmwf', lambda px, pn: bf.get_wmwf_vector(px, pn, reference_channel=ref, distortion_weight=1.0))):
         try:
